@@ -100,6 +100,9 @@ pub struct Plan {
     /// do not start before the controller has opened this phase (answer-after-drop, C20)
     #[serde(default)]
     pub wait_phase: u64,
+    /// read the whole body with a std helper instead of the read loop: "read_to_end" | "copy"
+    #[serde(default)]
+    pub read_std: Option<String>,
     /// after the as_reader() calls of `ask`: do not go on (reading, answering) before this phase is open
     #[serde(default)]
     pub hold_phase: u64,
